@@ -4,6 +4,8 @@
      IOk ids     the statement returned Ok; ids = RETURNING id, one per row
      IErr left   the statement returned Err; left = ids of the rows of THIS statement found in the
                  table right afterwards (in row order; a prefix of the statement's rows)
+   and the same for Database::insert_batch calls and for the executions of a prepared INSERT
+   (ids read back from the table; these paths can leave NULL in the column).
    model_agrees: the counter model (Model/AutoInc.v), told only at which row each failing
    statement stopped, reproduces every id.  spec_ok: the property's own checker on the observed
    ids alone.  Definitions only. *)
@@ -14,20 +16,58 @@ Import ListNotations.
 Open Scope Z_scope.
 
 Inductive obs := IOk (ids : list Z) | IErr (lft : list Z).
+(* bulk paths can store NULL in the id column: ids are options there *)
+Inductive bobs := BOk (ids : list (option Z)) | BErr (lft : list (option Z)).
+Inductive pout := POk (id : option Z) | PErr.
 Inductive cop :=
 | CIns (rows : list row) (o : obs)
+| CBatch (rows : list row) (o : bobs)          (* Database::insert_batch(t, rows) *)
+| CPrep (rows : list row) (outs : list pout)   (* one PreparedStatement `INSERT INTO t VALUES (?, ?)`,
+                                                  executed once per row; per execution: the id found
+                                                  in the table for that row, or Err *)
 | CDel | CBegin | CCommit | CRollback | CReopen.
 (* pk: id is also PRIMARY KEY; wal: PRAGMA wal=ON in every session.  Weird: the run showed something
    this case language cannot express (panic, non-integer id, rows left behind that are not a prefix) *)
 Inductive case := Case (pk wal : bool) (ops : list cop) | Weird.
 
+Definition pext (o : pout) : option nat := match o with POk _ => None | PErr => Some O end.
+Fixpoint prep_rest (rows : list row) (outs : list pout) : list op :=
+  match rows, outs with
+  | r :: rt, o :: ot => Bulk [r] (pext o) :: prep_rest rt ot
+  | _, _ => []
+  end.
+
 (* the model's view of an operation: for a failed statement the only thing taken from the
-   observation is the number of rows it had written when it stopped *)
-Definition to_op (c : cop) : op :=
+   observation is the number of rows it had written when it stopped.  A prepared statement runs
+   execute_insert_internal the first time and insert_cached from then on. *)
+Definition to_ops (c : cop) : list op :=
   match c with
-  | CIns rows (IOk _) => Insert rows None
-  | CIns rows (IErr lft) => Insert rows (Some (length lft))
-  | CDel => Delete | CBegin => TxBegin | CCommit => TxCommit | CRollback => TxRollback | CReopen => Reopen
+  | CIns rows (IOk _) => [Insert rows None]
+  | CIns rows (IErr lft) => [Insert rows (Some (length lft))]
+  | CBatch rows (BOk _) => [Bulk rows None]
+  | CBatch rows (BErr lft) => [Bulk rows (Some (length lft))]
+  | CPrep (r :: rt) (o :: ot) => Insert [r] (pext o) :: prep_rest rt ot
+  | CPrep _ _ => []
+  | CDel => [Delete] | CBegin => [TxBegin] | CCommit => [TxCommit] | CRollback => [TxRollback]
+  | CReopen => [Reopen]
+  end.
+
+Definition given (r : row) : option Z := match r with RNull => None | RInt v => Some v end.
+Definition oz_eqb (a b : option Z) : bool :=
+  match a, b with Some x, Some y => x =? y | None, None => true | _, _ => false end.
+Fixpoint ozlist_eqb (a b : list (option Z)) : bool :=
+  match a, b with
+  | [], [] => true
+  | x :: a', y :: b' => oz_eqb x y && ozlist_eqb a' b'
+  | _, _ => false
+  end.
+(* executions 2.. of a prepared statement: the id is stored as given *)
+Fixpoint cached_agree (rows : list row) (outs : list pout) : bool :=
+  match rows, outs with
+  | [], [] => true
+  | r :: rt, POk id :: ot => oz_eqb (given r) id && cached_agree rt ot
+  | _ :: rt, PErr :: ot => cached_agree rt ot
+  | _, _ => false
   end.
 
 Fixpoint agrees_from (ai : Z) (ops : list cop) : bool :=
@@ -36,15 +76,26 @@ Fixpoint agrees_from (ai : Z) (ops : list cop) : bool :=
   | c :: t =>
       match c with
       | CIns rows o =>
-          match to_op c with
-          | Insert rows' ext =>
-              let '(ai', w, ok) := insert_stmt ai rows' ext in
-              match o with
-              | IOk ids => ok && zlist_eqb (map fst w) ids
-              | IErr lft => negb ok && zlist_eqb (map fst w) lft
-              end && agrees_from ai' t
-          | _ => false
-          end
+          let ext := match o with IOk _ => None | IErr lft => Some (length lft) end in
+          let '(ai', w, ok) := insert_stmt ai rows ext in
+          match o with
+          | IOk ids => ok && zlist_eqb (map fst w) ids
+          | IErr lft => negb ok && zlist_eqb (map fst w) lft
+          end && agrees_from ai' t
+      | CBatch rows o =>
+          match o with
+          | BOk ids => ozlist_eqb (map given rows) ids
+          | BErr lft => (length lft <? length rows)%nat && ozlist_eqb (firstn (length lft) (map given rows)) lft
+          end && agrees_from ai t
+      | CPrep [] [] => agrees_from ai t
+      | CPrep (r :: rt) (o :: ot) =>
+          let '(ai', w, ok) := insert_stmt ai [r] (pext o) in
+          match o with
+          | POk (Some id) => ok && zlist_eqb (map fst w) [id]
+          | POk None => false
+          | PErr => negb ok
+          end && cached_agree rt ot && agrees_from ai' t
+      | CPrep _ _ => false
       | _ => agrees_from ai t
       end
   end.
@@ -55,18 +106,29 @@ Definition model_agrees (c : case) : bool :=
   | Weird => false
   end.
 
-(* the observed trace: each id the implementation showed, paired with whether the statement gave
-   NULL / no id for that row (so the value was generated) *)
+(* the observed trace: each integer id the implementation showed, paired with whether the
+   statement gave NULL / no id for that row (so the value was generated) *)
+Definition is_null (r : row) : bool := match r with RNull => true | RInt _ => false end.
 Fixpoint zip_rows (rows : list row) (ids : list Z) : list (Z * bool) :=
   match rows, ids with
-  | r :: rt, i :: it => (i, match r with RNull => true | RInt _ => false end) :: zip_rows rt it
+  | r :: rt, i :: it => (i, is_null r) :: zip_rows rt it
   | _, _ => []
   end.
+Fixpoint zip_rows_opt (rows : list row) (ids : list (option Z)) : list (Z * bool) :=
+  match rows, ids with
+  | r :: rt, Some i :: it => (i, is_null r) :: zip_rows_opt rt it
+  | _ :: rt, None :: it => zip_rows_opt rt it
+  | _, _ => []
+  end.
+Definition pout_id (o : pout) : option Z := match o with POk id => id | PErr => None end.
 Fixpoint observed (ops : list cop) : list (Z * bool) :=
   match ops with
   | [] => []
   | CIns rows (IOk ids) :: t => zip_rows rows ids ++ observed t
   | CIns rows (IErr lft) :: t => zip_rows rows lft ++ observed t
+  | CBatch rows (BOk ids) :: t => zip_rows_opt rows ids ++ observed t
+  | CBatch rows (BErr lft) :: t => zip_rows_opt rows lft ++ observed t
+  | CPrep rows outs :: t => zip_rows_opt rows (map pout_id outs) ++ observed t
   | _ :: t => observed t
   end.
 
@@ -79,7 +141,7 @@ Definition spec_ok (c : case) : bool :=
 
 Definition known_class (c : case) : Z :=
   match c with
-  | Case _ _ ops => AutoInc.known_class (map to_op ops)
+  | Case _ _ ops => AutoInc.known_class (flat_map to_ops ops)
   | Weird => 0
   end.
 
